@@ -77,6 +77,7 @@ func c19Facts(l *leanDefs) {
 	var rows []c19Row
 	cfgFlag, cfgFn, defBinding, fallback := "", "", "", ""
 	runSteps := []string{}
+	runExports := []string{}
 	cur := ""                // current function
 	var stack []string       // case nesting: "type" / "event"
 	key := ""                // current table key
@@ -132,6 +133,25 @@ func c19Facts(l *leanDefs) {
 				runSteps = append(runSteps, "for-each-index")
 			case t == "done":
 				runSteps = append(runSteps, "done")
+			case t == "CONTEXT_LENGTH=$(context::global::jq -r 'length')":
+				runSteps = append(runSteps, "length")
+			case t == "" || strings.HasPrefix(t, "#"):
+			case cfgFlag != "" && len(runSteps) == 1 && (t == cfgFn || t == "exit 0" || t == "fi"):
+				// the body of the --config branch, checked above
+			default:
+				stale = true // a statement of hook::run the reader does not know
+				runSteps = append(runSteps, "unknown")
+			}
+			if strings.HasPrefix(t, "export ") {
+				// what hook::run puts into the environment of every command it starts afterwards
+				for _, w := range strings.Fields(t)[1:] {
+					if i := strings.IndexByte(w, '='); i > 0 {
+						runExports = append(runExports, w[:i])
+					} else {
+						runExports = append(runExports, w)
+					}
+					break // one variable per export statement; anything after `=` is its value
+				}
 			}
 		case "hook::_get_possible_handler_names":
 			switch {
@@ -252,6 +272,32 @@ func c19Facts(l *leanDefs) {
 	l.def("c19DefaultBinding", "String", fmt.Sprintf("%q", defBinding), src+" hook::run")
 	l.def("c19Fallback", "String", fmt.Sprintf("%q", fallback), src+" hook::run")
 	l.def("c19RunSteps", "List String", leanStrList(runSteps), src+" hook::run (order of the loop body statements)")
+	l.def("c19RunExports", "List String", leanStrList(runExports), src+" hook::run (variables exported inside the loop)")
+	// frameworks/shell/context.sh: how the current context is read (bodies of the two accessors)
+	csrc := "frameworks/shell/context.sh"
+	cb, cerr := os.ReadFile(filepath.Join(repo, csrc))
+	if cerr != nil {
+		stale = true
+	}
+	bodies := map[string][]string{}
+	ccur := ""
+	for _, raw := range strings.Split(string(cb), "\n") {
+		if m := c19ReFunc.FindStringSubmatch(raw); m != nil {
+			ccur = m[1]
+			continue
+		}
+		if raw == "}" {
+			ccur = ""
+			continue
+		}
+		t := strings.TrimSpace(raw)
+		if ccur == "" || t == "" || strings.HasPrefix(t, "#") {
+			continue
+		}
+		bodies[ccur] = append(bodies[ccur], t)
+	}
+	l.def("c19GlobalJqBody", "List String", leanStrList(bodies["context::global::jq"]), csrc+" context::global::jq")
+	l.def("c19CtxJqBody", "List String", leanStrList(bodies["context::jq"]), csrc+" context::jq")
 	l.def("c19NoGlob", "Bool", fmt.Sprintf("%v", noGlob), src+" hook::_get_possible_handler_names (set -f)")
 	l.def("c19Stale", "Bool", fmt.Sprintf("%v", stale), src)
 }
